@@ -1,7 +1,6 @@
 (* C05: add / insert / remove paragraph on live documents. *)
 From V.model Require Import Base Deb822Lex Deb822Parse Grammar Lossy LossySpec Deb822Edit LiveDoc.
 From V.proofs Require Import BaseP GrammarAccP LossyRtP Deb822EditP LiveDocP.
-Set Default Timeout 60.
 
 (* ---- list surgery ---- *)
 Lemma insert_at_length {A} (l new : list A) : insert_at (length l) new l = l ++ new.
